@@ -444,6 +444,8 @@ func c17Gen(g *G) {
 	c17IdentGen(g)
 	// the migration while the old data centre hangs up: two goroutines replace the connection (c17race.go)
 	c17RaceGen(g)
+	// several calls in flight when the data centre sends them all away (c17inflight.go; D33)
+	c17InflightGen(g)
 	c17HistGen(g, code)
 	c17MigGen(g, code)
 	c17CallGen(g, code)
@@ -656,6 +658,9 @@ func c17Exec(op []string) string {
 	if out, ok := c17RaceExec(op); ok {
 		return out
 	}
+	if out, ok := c17InflightExec(op); ok {
+		return out
+	}
 	unhex := func(s string) []byte {
 		if s == "-" {
 			return nil
@@ -739,6 +744,9 @@ func c17Judge(op []string, out string) string {
 	}
 	if op[0] == "c17.race" {
 		return c17RaceJudge(op, out)
+	}
+	if op[0] == "c17.inflight" {
+		return c17InflightJudge(op, out)
 	}
 	if (op[0] == "c17.req" && len(op) == 4) || (op[0] == "c17.hist" && len(op) == 5) || ((op[0] == "c17.req2" || op[0] == "c17.two" || op[0] == "c17.call") && len(op) == 6) ||
 		(op[0] == "c17.home" && len(op) == 3) {
